@@ -48,6 +48,18 @@ AFTER = {
     "C04-r4": "reported by C05.R2 (XCHG as exact data movement), which existed before this seed; no rule of C04 looks at XCHG's write-back",
     "C08-r4": "first reported by C11.R6 only (an accepted path that emits no line); the `emits-conditionally` clause of C08.R2 was added after this seed",
     "C09-r4": "first reported by C04.R3 (and C05/C07 lane rules) only; C09.R4 (the address helper's paths enumerated one by one) was added after this seed",
+    "C03-r5": "C03.R12 got a partition on the operands' sign bits for conditions that go through a helper (`upper != sign_extension(ax)`) after this seed; before it the flag condition was undecided and the seed missed",
+    "C07-r5": "the dispatch clause of C07.R7 (every call of the interpreter reaches the dispatch over the State variants) was added after this seed; before it the seed was missed",
+    "C11-r4": "C11.R8 (the comment pattern, read from the driver's constants, evaluated on bounded comment bodies) was added after this seed; before it comment stripping was declared undecided and the seed missed",
+    "C16-r4": "C16.R11 (the line table is built from the terminated text and the text is not changed afterwards) was added after this seed; before it the seed was missed",
+    "C17-r5": "the one-byte-range clause of C17.R3 (the run restricted to `a -> a` still reaches the printing loop) was added after this seed; before it the seed was missed",
+    "C18-r5": "a range index into the memory array got a bounds obligation (start <= end <= 2^20) and C18.R1 a witness search by input specialisation after this seed; before it the site was undecided and the seed missed",
+    "C19-r4": "C19.R3 was extended after this seed to vectors collected from a hash container that are read in order without a loop (join, first, index, Debug); before it the seed was missed",
+    "C04-r5": "reported by C11.R7 (a component of the source operand is dropped from the emitted operand), which existed before this seed; no rule of C04 sees the assembler side",
+    "C06-r5": "reported by C09.R1 (abort-site census: `cx as i16 - 1` overflows for CX = 8000h), which existed before this seed; C06.R3 finds the value CX-1 mod 2^16 unchanged and is right about that",
+    "C10-r4": "reported by C14.R5 (the forward-reference record must be keyed with the label name), which existed before this seed; C10's containment rules do not model the driver's label check",
+    "C13-r4": "reported by C19.R6 only (the name stays in the nesting set on the too-deep exit, a genuine consequence); the changed limit itself (63 instead of 64 levels) is not decided by any rule",
+    "C15-r4": "reported by C16.R1 (a pushed line without source-map entry), which existed before this seed; C15's census leaves the driver's `source_map.get(..).unwrap()` undecided",
     "C20-r1": "caught through C17.R3 (the print range rule), which was extended after this seed; no rule of C20 decides it",
 }
 # alarms of other properties' checks on this seed, judged one by one
@@ -73,6 +85,13 @@ CROSS = {
     ("C09-r3", "C05"): "genuine: POP reads the high byte of the stack word at base+1 instead of (base+1) mod 2^20 (C05: the word at SS:SP)",
     ("C14-r3", "C11"): "genuine: the literal -200 in a byte position now means 56 (C11: a numeric literal means its value)",
     ("C16-r3", "C19"): "genuine: the helper object answers differently depending on earlier lookups (C19: objects give the same answer fresh or used)",
+    ("C08-r5", "C20"): "genuine: a line served from the driver's target cache is executed on a path that assigns the index without passing the stepping prompt (C20: one prompt per executed instruction)",
+    ("C09-r5", "C02"): "genuine: SHR by exactly the operand width aborts (C02: every count 0..255 is executed)",
+    ("C04-r5", "C11"): "genuine: the displacement of `es[bx,si,5]` is dropped from the emitted operand (C11: operands are preserved); through it the operand resolves to the wrong location (C04)",
+    ("C06-r5", "C09"): "genuine: LOOP with CX = 8000h aborts on an arithmetic overflow inside the interpreter (C09)",
+    ("C10-r4", "C14"): "genuine: forward-reference records keyed by position only collide inside macro expansions, so a jump to an undefined label passes the driver's check (C14: rejected before anything executes)",
+    ("C13-r4", "C19"): "genuine: on the too-deep exit the macro's name stays in the nesting set; the parser object then rejects a later, valid use of that macro (C19: objects do not leak state)",
+    ("C15-r4", "C16"): "genuine: `nop` emits a line without a source-map entry: every later line is attributed to the line before it (C16), and the last emitted line has no entry at all (the abort C15 names)",
     ("C20-r1", "C17"): "genuine: a print range that leaves the 1 MB space is no longer reported (C17's last clause)",
 }
 
